@@ -2,12 +2,13 @@
     [Spec/Tree.v] is the abstract tree with the contract of each primitive call.  The theorems
     below state, for the public path API on a MemoryFS instance and every well-formed state and
     every path: the call's outcome class and the new abstract tree are exactly what the contract
-    says ([abs] forgets timestamps), and well-formedness is kept.  The remaining configurations
+    says ([abs] forgets timestamps), and well-formedness is kept; an AltrootFS over it meets the
+    same contracts at [root ++ q] (by the exactness theorems of C07).  The remaining configurations
     are tied to the same contracts by the correspondence check (see DESIGN.md). *)
 From stdpp Require Import gmap list.
 From Coq Require Import NArith ZArith.
 From VFS Require Import Core.Types Core.Prog Core.Calls Base.MemFS Base.Handles Base.Store Layer.VfsPath Spec.Tree
-  Proofs.MemProofs Proofs.MemCalls Proofs.MemPublic.
+  Proofs.MemProofs Proofs.MemCalls Proofs.MemPublic Proofs.AltExact.
 
 Notation mstate := (gmap (list (list N)) memfile).
 
@@ -96,6 +97,44 @@ Proof.
     rewrite ?lookup_insert_ne, ?lookup_delete_ne by congruence; reflexivity.
 Qed.
 
+(** ** AltrootFS over a MemoryFS: the same contracts, at root ++ q *)
+Lemma class_relabel {T} q (r : res T) : class_of (relabel_to q r) = class_of r.
+Proof. destruct r as [x|e|]; reflexivity. Qed.
+
+Theorem C01_altroot_create_dir : forall hs lg ft root k (s : mstate) q, wf s -> q <> [] ->
+  exists s' r, run bhandler (vp_create_dir (altv mv root k) q) (mstore s hs lg ft) = (mstore s' hs lg ft, r) /\
+               abs s' = fst (spec_create_dir (abs s) (root ++ q)) /\
+               class_of r = snd (spec_create_dir (abs s) (root ++ q)) /\ wf s'.
+Proof.
+  intros hs lg ft root k s q Hwf Hq. rewrite (alt_create_dir_mem lg ft root k s hs q Hq).
+  destruct (refine_create_dir hs lg ft s (root ++ q) Hwf) as (s' & r & E & A & C & W). rewrite E. cbn [fst snd].
+  exists s'. eexists. split; [reflexivity|]. rewrite class_relabel. auto.
+Qed.
+
+Theorem C01_altroot_remove_file : forall hs lg ft root k (s : mstate) q, wf s ->
+  exists s' r, run bhandler (vp_remove_file (altv mv root k) q) (mstore s hs lg ft) = (mstore s' hs lg ft, r) /\
+               abs s' = fst (spec_remove_file (abs s) (root ++ q)) /\
+               class_of r = snd (spec_remove_file (abs s) (root ++ q)) /\ wf s'.
+Proof.
+  intros hs lg ft root k s q Hwf. rewrite (alt_remove_file_exact mv root k bhandler).
+  destruct (refine_remove_file hs lg ft s (root ++ q) Hwf) as (s' & r & E & A & C & W). rewrite E. cbn [fst snd].
+  exists s'. eexists. split; [reflexivity|]. rewrite class_relabel. auto.
+Qed.
+
+Theorem C01_altroot_remove_dir : forall hs lg ft root k (s : mstate) q, wf s -> root ++ q <> [] ->
+  exists s' r, run bhandler (vp_remove_dir (altv mv root k) q) (mstore s hs lg ft) = (mstore s' hs lg ft, r) /\
+               abs s' = fst (spec_remove_dir (abs s) (root ++ q) (bool_decide (mem_children s (root ++ q) = []))) /\
+               class_of r = snd (spec_remove_dir (abs s) (root ++ q) (bool_decide (mem_children s (root ++ q) = []))) /\ wf s'.
+Proof.
+  intros hs lg ft root k s q Hwf Hne. rewrite (alt_remove_dir_exact mv root k bhandler).
+  destruct (refine_remove_dir hs lg ft s (root ++ q) Hwf Hne) as (s' & r & E & A & C & W). rewrite E. cbn [fst snd].
+  exists s'. eexists. split; [reflexivity|]. rewrite class_relabel. auto.
+Qed.
+
+Theorem C01_altroot_exists : forall hs lg ft root k (s : mstate) q,
+  run bhandler (vp_exists (altv mv root k) q) (mstore s hs lg ft) = (mstore s hs lg ft, Ok (spec_exists (abs s) (root ++ q))).
+Proof. intros. rewrite (alt_exists_exact mv root k bhandler). apply refine_exists. Qed.
+
 Example C01_example :
   let s := fst (mem_step (CCreateDir [[97%N]]) mem_new) in
   wf s /\ snd (spec_create_dir (abs s) [[97%N]]) = KDirExists /\
@@ -118,3 +157,8 @@ Print Assumptions C01_abs_wf.
 Print Assumptions C01_contract_failed_unchanged.
 Print Assumptions C01_contract_frame.
 Print Assumptions C01_example.
+Print Assumptions C01_altroot_create_dir.
+Print Assumptions C01_altroot_remove_file.
+Print Assumptions C01_altroot_remove_dir.
+Print Assumptions C01_altroot_exists.
+Print Assumptions class_relabel.
